@@ -271,3 +271,13 @@ impl<F: FixedChannelRegion> RegionHandler for FixedChannelPlan<F> {
         }
     }
 }
+
+#[cfg(feature = "verif-hooks")]
+impl<F: FixedChannelRegion> FixedChannelPlan<F> {
+    pub(crate) fn verif_plan(&self) -> VerifPlan {
+        let mut plan = VerifPlan { fixed: true, ..Default::default() };
+        plan.mask.copy_from_slice(self.channel_mask.as_ref());
+        plan.join_walk = Some(self.join_channels.verif_walk());
+        plan
+    }
+}
